@@ -9,13 +9,13 @@ FIX_COMMITS = ["98bc2de", "ed106f3", "491bd24", "dfb98ff", "3df74c4", "b3f789f",
 CHECKS = {
  # id: (engine, technique, level text, level note, design ref, has_thorough)
  "C16": ("kani", "Kani/CBMC 2-safety (non-interference by self-composition) on Debug of SecretKey/Credentials and serde Serialize of SecretKey for two arbitrary secrets; source-level taint pass over the signature code (solver-free, labelled); TRACE-level runtime capture of every authentication request kind on the real build",
-         "for every pair of secrets of 1-3 symbolic bytes the Debug/Serialize output is identical and does not contain the secret; values derived from the secret reach no tracing macro, error message, span field or formatted string in the 10 files that handle it; ~260 requests at TRACE verbosity: the secret occurs nowhere in log, response head or body",
+         "for every pair of secrets of 1-3 symbolic bytes the Debug/Serialize output is identical (for human-readable and binary serializers alike) and does not contain the secret; values derived from the secret reach no tracing macro, error message, span field or formatted string in the 10 files that handle it; ~900 requests (3 secret lengths) at TRACE verbosity: the secret occurs nowhere in log, response head or body",
          "claimed only for these parts: Debug of other public types and third-party log sites are outside; the taint pass is syntactic",
          "DESIGN.md 5/C16", True),
- "C17": ("kani", "bounded model checking (Kani/CBMC) of the s3s-fs path computation with path-absolutize/path-dedot compiled",
-         "claimed for the PATH COMPUTATION only: for root /r, buckets bk/b2 and every key of 1-2 bytes over {a, ., /} plus climbing/inner-dot/absolute key families, get_object_path is Err or lies strictly under /r/<bucket>/ and never names a bookkeeping file; bookkeeping paths are direct children of the root",
-         "the I/O half of the property (what tokio::fs touches, behaviour on a real tree, symlinks) is not applicable to this technique and is not claimed",
-         "DESIGN.md 5/C17", True),
+ "C17": ("rsx", "source-level symbolic execution (rsx + z3) of the bucket guard FileSystem::get_object_path / resolve_abs_path on keys of symbolic shape, with std::path, path-dedot and path-absolutize as a library model transcribed from their sources and validated key by key on the real backend; Kani/CBMC on the compiled path computation (path-absolutize/path-dedot compiled) for concrete keys; path-provenance pass over the operation layer (solver-free, labelled); native probe of the real backend on a scratch tree",
+         "for every key of up to 6 (thorough: 8) '/'-separated segments, each empty, '.', '..' or a symbolic name, with or without a leading '/': get_object_path is Err or a path strictly below root/<bucket> built from the key's own names, and never panics; compiled guard on every key of 1-2 bytes over {a, ., /} plus climbing/inner-dot/absolute families and bookkeeping look-alikes; each of the 57 file-system call sites of s3.rs/fs.rs takes its path from those constructors; 418 operations x traversal-rich keys on the real backend change and return nothing outside the addressed bucket",
+         "the library model of std::path / path-dedot / path-absolutize is an assumption checked on one PutObject per explored path; what the kernel does with the computed path (symlinks, races, case-folding file systems) is not applicable to this technique and is not claimed",
+         "DESIGN.md 0.6 and 5/C17", True),
  "C04": ("rsx", "rsx+z3: symbolic execution of S3ErrorCode::status_code over all enum variants against data/s3_error_codes.json, of ops::serialize_error + S3Error's XML impl on a symbolic error, and of every path of ops::call (error funnel, panic sites); malformed-request family on the real debug build",
          "status = override ?? table ?? 500, headers = the error's, document = Error{Code, Message?, RequestId?} on every path; every error of prepare / operation / custom route reaches serialize_error on every one of ~25 000 paths; as_str/from_bytes tables consistent; ~1 200 malformed requests x configurations answered without panic on the debug build",
          "panic freedom of request parsing is decided only inside the bounds of the Kani harnesses of the other properties; third-party parsers beyond those bounds are outside the claim",
